@@ -105,6 +105,15 @@ def resolve_param(p, kv, n, desc, others=()):
         return a, "start"
     if kind == "end":
         return b, "end"
+    if kind == "near":
+        inner = sorted(set(k for k in kv[p + 1:n] if a < k < b))
+        eps = (desc[4] if len(desc) > 4 else 2.0 ** -24) * max(1.0, abs(b - a))
+        if inner:
+            k0 = inner[desc[1] % len(inner)]
+            u = k0 + desc[3] * eps
+            if a < u < b and u != k0 and not any(abs(u - k) < eps / 2 for k in kv if k != k0):
+                return u, "near"
+        kind = "in"
     # non-empty spans
     spans = [j for j in range(p, n) if kv[j] < kv[j + 1]]
     if kind == "knot":
